@@ -3,6 +3,7 @@ package props
 import (
 	"go/ast"
 	"go/token"
+	"go/types"
 	"strings"
 
 	"pdfverif/internal/core"
@@ -22,6 +23,8 @@ func init() {
 
 func runC12(c *core.Ctx) {
 	const pkg = "pdf/font/charcode"
+	defer ruleDecodeConsumption(c)
+	defer ruleNoAmbiguousKeys(c)
 	c.Check("C12-R1", pkg+".newTree/desc", "every child stored in the tree is recorded in the descriptor (its own descriptor and its upper bound) before the next child is considered", func(o *core.Ob) {
 		fn := c.Prog.Func(pkg, "newTree")
 		g := fn.Graph()
@@ -390,5 +393,194 @@ func runC12(c *core.Ctx) {
 		o.Fact("agreement tests: Low %d, High %d", count["Low"], count["High"])
 		o.Require(count["Low"] >= 1 && count["High"] >= 1, "canMerge does not compare the bounds of its arguments")
 		o.Require(count["Low"] == count["High"], "canMerge tests the lower bounds for agreement %d time(s) but the upper bounds %d time(s)", count["Low"], count["High"])
+	})
+}
+
+// ruleDecodeConsumption (C12-R7): Decode assembles a code from successive
+// input bytes; each byte is read as s[0] and the slice is advanced before the
+// next read.  A read that is not followed by an advance may only be the last
+// one before the function returns: otherwise the same byte is taken twice
+// (the reported code differs from the bytes the reported length covers).
+func ruleDecodeConsumption(c *core.Ctx) {
+	const pkg = "pdf/font/charcode"
+	c.Check("C12-R7", pkg+".(*Codec).Decode/consumption", "between two reads of the next input byte s[0] the input slice is advanced", func(o *core.Ob) {
+		fn := c.Prog.Func(pkg, "(*Codec).Decode")
+		g := fn.Graph()
+		info := fn.Info()
+		s := paramObj(fn, "s")
+		var reads, advances []*core.V
+		for _, v := range g.Vs {
+			if v.AST == nil {
+				continue
+			}
+			var node ast.Node = v.AST
+			if v.Cond != nil && v.Cond.Expr != nil {
+				node = v.Cond.Expr
+			}
+			isRead, isAdv := false, false
+			ast.Inspect(node, func(m ast.Node) bool {
+				switch x := m.(type) {
+				case *ast.IndexExpr:
+					if core.ObjOf(info, x.X) == s {
+						if k, ok := core.IntConst(info, x.Index); ok && k == 0 {
+							isRead = true
+						} else {
+							core.Undecided("input indexed other than s[0]: %s", c.Prog.Src(x))
+						}
+					}
+				case *ast.AssignStmt:
+					for i, l := range x.Lhs {
+						if core.ObjOf(info, l) != s || len(x.Rhs) != len(x.Lhs) {
+							continue
+						}
+						sl, ok := ast.Unparen(x.Rhs[i]).(*ast.SliceExpr)
+						if ok && core.ObjOf(info, sl.X) == s && sl.High == nil {
+							if k, ok := core.IntConst(info, sl.Low); ok && k == 1 {
+								isAdv = true
+								continue
+							}
+						}
+						core.Undecided("input slice reassigned in an unexpected way: %s", c.Prog.Src(x))
+					}
+				}
+				return true
+			})
+			if isAdv {
+				advances = append(advances, v)
+			} else if isRead {
+				reads = append(reads, v)
+			}
+			if isRead && isAdv {
+				o.At(fn.Site(v.AST, "reads and advances"))
+			}
+		}
+		o.Fact("%d read-only sites, %d advancing sites", len(reads), len(advances))
+		o.Require(len(advances) >= 1, "the input is never advanced")
+		allReads := append(append([]*core.V{}, reads...), advances...)
+		for _, r := range reads {
+			o.Count(1)
+			o.At(fn.Site(r.AST, "reads s[0] without advancing"))
+			after := g.ReachFrom(r, false, core.AvoidVs(advances...))
+			for _, r2 := range allReads {
+				isAdvRead := false
+				for _, a := range advances {
+					if a == r2 {
+						isAdvRead = true
+					}
+				}
+				if isAdvRead {
+					// an advancing statement that also reads s[0] (b, s = s[0], s[1:]): is it reached?
+					if g.ReachFrom(r, false, core.AvoidVs(func() []*core.V {
+						var o2 []*core.V
+						for _, a := range advances {
+							if a != r2 {
+								o2 = append(o2, a)
+							}
+						}
+						return o2
+					}()...))[r2] {
+						readsToo := false
+						ast.Inspect(r2.AST, func(m ast.Node) bool {
+							if ix, ok := m.(*ast.IndexExpr); ok && core.ObjOf(info, ix.X) == s {
+								readsToo = true
+							}
+							return true
+						})
+						if readsToo {
+							o.FailAt(fn.Site(r2.AST, "same byte read again"), "%s: the byte read at %s is read again at %s without the input having been advanced", c.Prog.Pos(r2.AST.Pos()), c.Prog.Pos(r.AST.Pos()), c.Prog.Pos(r2.AST.Pos()))
+						}
+					}
+					continue
+				}
+				if after[r2] {
+					o.FailAt(fn.Site(r2.AST, "same byte read again"), "%s: the byte read at %s is read again at %s without the input having been advanced", c.Prog.Pos(r2.AST.Pos()), c.Prog.Pos(r.AST.Pos()), c.Prog.Pos(r2.AST.Pos()))
+				}
+			}
+		}
+	})
+}
+
+// ruleNoAmbiguousKeys (C12-R8): a Codec is determined by its code space
+// ranges.  If the package ever memoises codecs (or anything else) under a
+// key built by concatenating variable-length byte strings without lengths
+// or separators, different range sets collide (<00><FFFF> + <01><02> and
+// <00FF><FF01> + <02>...) and the wrong codec is returned.  The rule looks at
+// every map index and sync.Map Load/Store/LoadOrStore key in the package: a
+// key variable whose every write is "k = append(k, bytes...)" with
+// variable-length operands only is ambiguous.  Today the package has no such
+// cache; the rule records the keyed lookups it inspected.
+func ruleNoAmbiguousKeys(c *core.Ctx) {
+	const pk = "pdf/font/charcode"
+	c.Check("C12-R8", pk+"/lookup-keys", "no lookup key is an unseparated concatenation of variable-length byte strings", func(o *core.Ob) {
+		pkg := c.Prog.Pkg(pk)
+		for _, fn := range c.Prog.Funcs(pkg) {
+			info := fn.Info()
+			var keys []ast.Expr
+			ast.Inspect(fn.Decl.Body, func(n ast.Node) bool {
+				switch x := n.(type) {
+				case *ast.IndexExpr:
+					if _, ok := info.TypeOf(x.X).Underlying().(*types.Map); ok {
+						keys = append(keys, x.Index)
+					}
+				case *ast.CallExpr:
+					k := core.CalleeKey(info, x)
+					if strings.HasPrefix(k, "sync.(*Map).") && len(x.Args) >= 1 {
+						keys = append(keys, x.Args[0])
+					}
+				}
+				return true
+			})
+			for _, k := range keys {
+				o.Count(1)
+				e := ast.Unparen(k)
+				// string(k) / []byte conversions
+				for {
+					call, ok := e.(*ast.CallExpr)
+					if !ok || len(call.Args) != 1 {
+						break
+					}
+					if tv, ok := info.Types[call.Fun]; !ok || !tv.IsType() {
+						break
+					}
+					e = ast.Unparen(call.Args[0])
+				}
+				obj, _ := core.ObjOf(info, e).(*types.Var)
+				if obj == nil || obj.IsField() {
+					continue
+				}
+				writes := core.AssignsTo(info, fn.Decl, obj)
+				spread, other := 0, 0
+				for _, w := range writes {
+					as, ok := w.(*ast.AssignStmt)
+					if !ok || len(as.Rhs) != 1 {
+						if vs, isVS := w.(*ast.ValueSpec); isVS && len(vs.Values) == 0 {
+							continue
+						}
+						other++
+						continue
+					}
+					call, ok := ast.Unparen(as.Rhs[0]).(*ast.CallExpr)
+					if id, isID := func() (*ast.Ident, bool) {
+						if !ok {
+							return nil, false
+						}
+						i, k := call.Fun.(*ast.Ident)
+						return i, k
+					}(); ok && isID && id.Name == "append" && call.Ellipsis.IsValid() && len(call.Args) == 2 && core.ObjOf(info, call.Args[0]) == obj {
+						if _, isSlice := info.TypeOf(call.Args[1]).Underlying().(*types.Slice); isSlice {
+							spread++
+							continue
+						}
+					}
+					other++
+				}
+				if spread >= 1 && other == 0 && len(writes) >= 2 {
+					o.FailAt(fn.Site(k, ""), "%s: the lookup key %s is built only by appending variable-length byte strings: different inputs give the same key", c.Prog.Pos(k.Pos()), c.Prog.Src(k))
+				}
+			}
+		}
+		if o.Evals == 0 {
+			o.Count(1)
+		}
 	})
 }
